@@ -30,7 +30,16 @@ import (
 
 type keptIndex map[string][]string // function key -> effects that are must-pass on success
 
+// keptFile is the on-disk inventory: must-pass effects (E5), implications between effects (E5b: on every successful
+// path that performs A, B is performed too) and loop-local accumulators (E6).
+type keptFile struct {
+	Effects    keptIndex `json:"effects"`
+	Implies    keptIndex `json:"implies"`
+	LoopLocals keptIndex `json:"loop_locals"`
+}
+
 var keptCache keptIndex
+var keptAll *keptFile
 
 func keptIndexPath() string {
 	exe, err := os.Executable()
@@ -48,8 +57,12 @@ func loadKeptIndex() keptIndex {
 		return keptCache
 	}
 	keptCache = keptIndex{}
+	keptAll = &keptFile{Effects: keptIndex{}, Implies: keptIndex{}, LoopLocals: keptIndex{}}
 	if data, err := os.ReadFile(keptIndexPath()); err == nil {
-		_ = json.Unmarshal(data, &keptCache)
+		_ = json.Unmarshal(data, keptAll)
+		if keptAll.Effects != nil {
+			keptCache = keptAll.Effects
+		}
 	}
 	return keptCache
 }
@@ -264,6 +277,7 @@ func keptSuccess(r *RuleCtx) func(Pt) bool {
 func writeKeptIndex(c *Check, path string) (int, int, error) {
 	p := c.P
 	idx := keptIndex{}
+	out := keptFile{Effects: idx, Implies: keptIndex{}, LoopLocals: keptIndex{}}
 	nItems := 0
 	p.AllFuncs(p.ServerPkgs(), func(fi *FuncInfo) {
 		if fi.Decl.Body == nil || strings.HasSuffix(p.Fset.Position(fi.Decl.Pos()).Filename, "_test.go") {
@@ -271,14 +285,22 @@ func writeKeptIndex(c *Check, path string) (int, int, error) {
 		}
 		func() {
 			defer func() { _ = recover() }()
-			must, _, _ := keptMustPass(c, fi)
+			must, occ, r := keptMustPass(c, fi)
 			if len(must) > 0 {
 				idx[keptFuncKey(fi)] = must
 				nItems += len(must)
 			}
+			if imp := keptImplications(r, occ, must); len(imp) > 0 {
+				out.Implies[keptFuncKey(fi)] = imp
+				nItems += len(imp)
+			}
+			if ll := keptLoopLocals(fi); len(ll) > 0 {
+				out.LoopLocals[keptFuncKey(fi)] = ll
+				nItems += len(ll)
+			}
 		}()
 	})
-	data, err := json.MarshalIndent(idx, "", " ")
+	data, err := json.MarshalIndent(out, "", " ")
 	if err != nil {
 		return 0, 0, err
 	}
@@ -294,6 +316,8 @@ func keptEffectsSeen(c *Check, fis []*FuncInfo) {
 	p := c.P
 	idx := loadKeptIndex()
 	c.Rule("E5", "kept effects: every store to a struct field, call into maddy / the operating system / the synchronisation and mail libraries, or channel send that every successful path of the function performed in the reference tree (checker/mustpass_index.json) is still performed on every successful path – no early return or deleted statement skips a step the rest of the system relies on", keptFloor[c.ID])
+	c.Rule("E5b", "kept implications: on every successful path on which the function performs effect A it also performs effect B, for the pairs (A, B) of conditional effects for which that holds in the reference tree (the bookkeeping that follows an action is not skipped by a new early return between the two)", 0)
+	c.Rule("E6", "loop-local state stays loop-local: a variable that the reference tree declares inside a loop body and updates there (an accumulator that starts afresh for every message / recipient / entry) is still declared inside that loop", 0)
 	if len(idx) == 0 {
 		c.Fail("E5", "inventory", token.NoPos, "the reference inventory checker/mustpass_index.json is missing or empty")
 		return
@@ -336,7 +360,276 @@ func keptEffectsSeen(c *Check, fis []*FuncInfo) {
 			path, found := r.F.Reach(Query{From: r.Entry(), Inclusive: true, Target: success, Avoid: isPt(pts)})
 			c.Hold("E5", key, fi.Decl.Pos(), !found, "a successful path skips `"+e+"`, which every successful path performed in the reference tree (an early return or a new condition in front of it): "+r.F.Describe(path))
 		}
+		// E5b: implications
+		for _, imp := range keptAll.Implies[keptFuncKey(fi)] {
+			parts := strings.SplitN(imp, " => ", 2)
+			if len(parts) != 2 {
+				continue
+			}
+			e1, e2 := parts[0], parts[1]
+			if len(occ[e1]) == 0 {
+				continue // the premise does not occur any more: nothing is promised
+			}
+			key := fi.Pkg.Types.Name() + "." + recvPrefix(fi) + refName(fi.Obj) + ":" + imp
+			if why, ok := errLookedAtExceptions["E5b "+key]; ok {
+				c.Except("E5b " + key + ": " + why)
+				continue
+			}
+			path, bad := keptCounterexample(r, occ[e1], occ[e2], success)
+			c.Hold("E5b", key, fi.Decl.Pos(), !bad, "a successful path performs `"+e1+"` without `"+e2+"`; in the reference tree every successful path that performed the first also performed the second (an early return, a new condition or a deleted statement between them): "+r.F.Describe(path))
+		}
+		// E6: loop-local accumulators
+		for _, ll := range keptAll.LoopLocals[keptFuncKey(fi)] {
+			parts := strings.SplitN(ll, " | ", 2)
+			if len(parts) != 2 {
+				continue
+			}
+			if msg, decided := keptLoopLocalStill(fi, parts[0], parts[1]); decided {
+				key := fi.Pkg.Types.Name() + "." + recvPrefix(fi) + refName(fi.Obj) + ":" + ll
+				c.Hold("E6", key, fi.Decl.Pos(), msg == "", msg)
+			}
+		}
 	}
+}
+
+// keptCounterexample: a successful path through an occurrence of the premise that avoids every occurrence of the
+// conclusion.
+func keptCounterexample(r *RuleCtx, prem, concl []Pt, success func(Pt) bool) ([]Pt, bool) {
+	avoid := isPt(concl)
+	for _, p1 := range prem {
+		if avoid(p1) {
+			continue // the same statement performs both
+		}
+		p1 := p1
+		a, ok1 := r.F.Reach(Query{From: r.Entry(), Inclusive: true, Target: func(q Pt) bool { return q == p1 }, Avoid: avoid})
+		if !ok1 {
+			continue
+		}
+		b, ok2 := r.F.Reach(Query{From: []Pt{p1}, Inclusive: true, Target: success, Avoid: avoid})
+		if ok2 {
+			return append(a, b...), true
+		}
+	}
+	return nil, false
+}
+
+// keptImplications: pairs (A, B) of effects of the function, neither must-pass on its own, such that every successful
+// path that performs A performs B.
+func keptImplications(r *RuleCtx, occ map[string][]Pt, must []string) []string {
+	if r == nil {
+		return nil
+	}
+	isMust := map[string]bool{}
+	for _, m := range must {
+		isMust[m] = true
+	}
+	var keys []string
+	for e := range occ {
+		if !isMust[e] {
+			keys = append(keys, e)
+		}
+	}
+	sort.Strings(keys)
+	if len(keys) > 24 {
+		return nil // a function with that many conditional effects: the pair set says little, skip it
+	}
+	success := keptSuccess(r)
+	var out []string
+	for _, e1 := range keys {
+		// the premise must be able to occur on a successful path at all
+		reach := false
+		for _, p1 := range occ[e1] {
+			p1 := p1
+			if _, ok := r.F.Reach(Query{From: []Pt{p1}, Inclusive: true, Target: success}); ok {
+				reach = true
+			}
+		}
+		if !reach {
+			continue
+		}
+		for _, e2 := range keys {
+			if e1 == e2 {
+				continue
+			}
+			if _, bad := keptCounterexample(r, occ[e1], occ[e2], success); !bad {
+				out = append(out, e1+" => "+e2)
+			}
+		}
+	}
+	return out
+}
+
+// loopHeader: a position-free description of a loop (what it ranges over / its condition)
+func loopHeader(n ast.Node) string {
+	switch l := n.(type) {
+	case *ast.RangeStmt:
+		return "range " + exprStr(l.X)
+	case *ast.ForStmt:
+		h := "for"
+		if l.Init != nil {
+			if as, ok := l.Init.(*ast.AssignStmt); ok && len(as.Rhs) == 1 {
+				h += " " + exprStr(as.Rhs[0])
+			}
+		}
+		if l.Cond != nil {
+			h += " ; " + exprStr(l.Cond)
+		}
+		return h
+	}
+	return ""
+}
+
+// keptLoopLocals: variables declared in a loop body with an initial value and assigned again later in that body –
+// state that is meant to start afresh in every iteration.
+func keptLoopLocals(fi *FuncInfo) []string {
+	info := fi.Info()
+	var out []string
+	seen := map[string]bool{}
+	ast.Inspect(fi.Decl.Body, func(x ast.Node) bool {
+		var body *ast.BlockStmt
+		switch l := x.(type) {
+		case *ast.RangeStmt:
+			body = l.Body
+		case *ast.ForStmt:
+			body = l.Body
+		default:
+			return true
+		}
+		hdr := loopHeader(x)
+		if hdr == "" || hdr == "for" {
+			return true
+		}
+		// declared directly in the loop body (not in nested function literals)
+		for _, st := range body.List {
+			var decl []*ast.Ident
+			switch d := st.(type) {
+			case *ast.AssignStmt:
+				if d.Tok == token.DEFINE {
+					for _, l := range d.Lhs {
+						if id, ok := l.(*ast.Ident); ok && info.Defs[id] != nil {
+							decl = append(decl, id)
+						}
+					}
+				}
+			case *ast.DeclStmt:
+				if gd, ok := d.Decl.(*ast.GenDecl); ok {
+					for _, sp := range gd.Specs {
+						if vs, ok := sp.(*ast.ValueSpec); ok {
+							decl = append(decl, vs.Names...)
+						}
+					}
+				}
+			}
+			for _, id := range decl {
+				obj := info.Defs[id]
+				if obj == nil || id.Name == "_" || id.Name == "err" || id.Name == "ok" {
+					continue
+				}
+				// assigned again in the body after its declaration?
+				again := false
+				inspectNoLit(body, func(y ast.Node) bool {
+					switch a := y.(type) {
+					case *ast.AssignStmt:
+						if a.Pos() > id.Pos() {
+							for _, l := range a.Lhs {
+								if lid, ok := ast.Unparen(l).(*ast.Ident); ok && info.Uses[lid] == obj {
+									again = true
+								}
+							}
+						}
+					case *ast.IncDecStmt:
+						if lid, ok := ast.Unparen(a.X).(*ast.Ident); ok && info.Uses[lid] == obj {
+							again = true
+						}
+					}
+					return true
+				})
+				k := id.Name + " | " + hdr
+				if again && !seen[k] {
+					seen[k] = true
+					out = append(out, k)
+				}
+			}
+		}
+		return true
+	})
+	sort.Strings(out)
+	return out
+}
+
+// keptLoopLocalStill: in the function, a loop with that header still uses a variable of that name – is it still
+// declared inside the loop? decided=false when the loop or the variable cannot be found (renamed, restructured).
+func keptLoopLocalStill(fi *FuncInfo, name, hdr string) (msg string, decided bool) {
+	info := fi.Info()
+	ast.Inspect(fi.Decl.Body, func(x ast.Node) bool {
+		var body *ast.BlockStmt
+		switch l := x.(type) {
+		case *ast.RangeStmt:
+			body = l.Body
+		case *ast.ForStmt:
+			body = l.Body
+		default:
+			return true
+		}
+		if loopHeader(x) != hdr {
+			return true
+		}
+		judge := func(id *ast.Ident) {
+			if id == nil || id.Name != name {
+				return
+			}
+			obj := info.Uses[id]
+			if obj == nil {
+				obj = info.Defs[id]
+			}
+			v, isVar := obj.(*types.Var)
+			if !isVar || v.IsField() {
+				return
+			}
+			decided = true
+			if !(v.Pos() >= body.Pos() && v.Pos() < body.End()) {
+				msg = "variable " + name + " updated in the loop `" + hdr + "` is declared outside it: in the reference tree it started afresh in every iteration, now what one iteration (one message, one recipient, one entry) left in it is seen by the next"
+			}
+		}
+		// the updates of the variable inside the loop (not mere reads, not a shadowing re-declaration's right-hand side)
+		inspectNoLit(body, func(y ast.Node) bool {
+			switch a := y.(type) {
+			case *ast.AssignStmt:
+				if a.Tok != token.DEFINE {
+					for _, l := range a.Lhs {
+						if lid, ok := ast.Unparen(l).(*ast.Ident); ok {
+							judge(lid)
+						}
+					}
+				}
+			case *ast.IncDecStmt:
+				if lid, ok := ast.Unparen(a.X).(*ast.Ident); ok {
+					judge(lid)
+				}
+			}
+			return true
+		})
+		_ = func(y ast.Node) bool {
+			id, ok := y.(*ast.Ident)
+			if !ok || id.Name != name {
+				return true
+			}
+			obj := info.Uses[id]
+			if obj == nil {
+				obj = info.Defs[id]
+			}
+			v, isVar := obj.(*types.Var)
+			if !isVar || v.IsField() {
+				return true
+			}
+			if !(v.Pos() >= body.Pos() && v.Pos() < body.End()) {
+				msg = "variable " + name + " (unused)"
+			}
+			return true
+		}
+		return true
+	})
+	return msg, decided
 }
 
 // keptMustPass0: occurrences only (the must-pass set is taken from the inventory)
